@@ -440,6 +440,9 @@ class StorageRunner:
             elif o == 'check':
                 st.checkCurrentSerialInTransaction(p64(int(tk[2])), p64(int(tk[3])), self.txn(int(tk[1])))
                 r = 'ok'
+            elif o == 'delete':
+                st.deleteObject(p64(int(tk[2])), p64(int(tk[3])), self.txn(int(tk[1])))
+                r = 'ok'
             elif o == 'vote':
                 v = st.tpc_vote(self.txn(int(tk[1])))
                 self.voted.add(int(tk[1]))
@@ -490,7 +493,10 @@ class StorageRunner:
                     st.tpc_vote(txn)
                     st.tpc_finish(txn)
                     calls = take_calls()
-                    r = 'ok ' + decode_record(load_current(st, p64(int(tk[2])))[0])
+                    try:
+                        r = 'ok ' + decode_record(load_current(st, p64(int(tk[2])))[0])
+                    except Exception as e2:
+                        r = 'ok none' if errname(e2) == 'err:KeyError' else 'ok ' + errname(e2)
                 except BaseException as e:  # noqa: B902
                     calls = take_calls()
                     st.tpc_abort(txn)
@@ -548,8 +554,9 @@ class Recorder:
         self.last_finish = {}     # thread ident -> tid (int) of the last successful tpc_finish
         self.last_vote = {}       # thread ident -> oids (ints) returned by the last tpc_vote
         for name in ('tpc_begin', 'store', 'checkCurrentSerialInTransaction', 'tpc_vote', 'tpc_finish',
-                     'tpc_abort'):
-            setattr(storage, name, self._wrap(name, getattr(storage, name)))
+                     'tpc_abort', 'deleteObject'):
+            if hasattr(storage, name):
+                setattr(storage, name, self._wrap(name, getattr(storage, name)))
 
     def tnum(self, txn):
         k = id(txn)
@@ -596,6 +603,15 @@ class Recorder:
                 raise
             rec.emit('check', t, u64(oid), u64(serial), 'ok')
 
+        def deleteObject(oid, serial, txn):
+            t = rec.tnum(txn)
+            try:
+                real(oid, serial, txn)
+            except BaseException as e:  # noqa: B902
+                rec.emit('delete', t, u64(oid), u64(serial), errname(e))
+                raise
+            rec.emit('delete', t, u64(oid), u64(serial), 'ok')
+
         def tpc_vote(txn, *a, **k):
             t = rec.tnum(txn)
             try:
@@ -630,7 +646,8 @@ class Recorder:
             rec.emit('abort-exit', t, 'ok')
 
         return dict(tpc_begin=tpc_begin, store=store, checkCurrentSerialInTransaction=check,
-                    tpc_vote=tpc_vote, tpc_finish=tpc_finish, tpc_abort=tpc_abort)[name]
+                    tpc_vote=tpc_vote, tpc_finish=tpc_finish, tpc_abort=tpc_abort,
+                    deleteObject=deleteObject)[name]
 
     def lines(self):
         """(model op lines, real observation lines, list of mutual-exclusion problems).
@@ -666,8 +683,8 @@ class Recorder:
             elif k == 'store':
                 ops.append(['store', t, ev[2], ev[3], decode_record_safe(ev[4])])
                 obs.append(ev[5])
-            elif k == 'check':
-                ops.append(['check', t, ev[2], ev[3]])
+            elif k in ('check', 'delete'):
+                ops.append([k, t, ev[2], ev[3]])
                 obs.append(ev[4])
             elif k == 'vote':
                 ops.append(['vote', t])
